@@ -236,6 +236,8 @@ def run(ctx):
                 spec = rnd.choice(files)
             else:
                 kws = rnd.sample(["noise", "seed", "num_per_decade"], rnd.randint(0, 3))
+                if "noise" in kws and "seed" not in kws:
+                    kws.append("seed")     # without a seed the noise is drawn afresh on every call: nothing to compare
                 kwtxt = ",".join(f"{k}={ {'noise': rnd.choice(['0.1', '0.5', '1e-2']), 'seed': str(rnd.randint(1, 999)), 'num_per_decade': str(rnd.randint(2, 6))}[k] }" for k in kws)
                 spec = "<" + rnd.choice(["CIRCUIT_1", "CIRCUIT_2", "CIRCUIT_5", "CIRCUIT_1_INVALID"]) + (":" + kwtxt if kwtxt else "") + ">"
             fmt = rnd.choice(["csv", "json", "md"])
